@@ -93,7 +93,12 @@ def _run(k, throttled, on_error, kinds, ramp=0, cancel_at=None, complete_set=Fal
 def timings(sl):
     k, throttled = sl["requests"], sl["throttled"]
     kinds = lazy_kind("outcome", 8)  # all classes but KeyError; ConnectionError is fatal
-    clock, runner, handle, samples, how, val, complete = _run(k, throttled, "continue", kinds, complete_during_wait=sl.get("complete_during_wait", False),
+    ramp = 0
+    if sl.get("ramp"):
+        # this client is ramped up: it starts after a symbolic positive delay (the schedule itself is unchanged)
+        ramp = fresh_real("ramp_up_wait", 0)
+        core.assume(ramp > 0)
+    clock, runner, handle, samples, how, val, complete = _run(k, throttled, "continue", kinds, ramp=ramp, complete_during_wait=sl.get("complete_during_wait", False),
                                                               max_gap=sl.get("max_gap"), nested=sl.get("nested", False))
     total_start = clock.reads[0]
     core.note("outcomes", [execenv.R_NAMES[kinds.cache[i]] for i in sorted(kinds.cache)])
@@ -311,11 +316,26 @@ def _c07(name):
     return run
 
 
+def _c18(name):
+    def run(sl):
+        from harness import c18
+
+        return getattr(c18, name)(sl)
+
+    run.__name__ = name
+    return run
+
+
 HARNESSES = [
+    Harness("sub_request_service_time", _c18("request_timing"), "symbolic", lambda tier: [{"subrequests": n} for n in (1, 2, 3)],
+            reads=[client_context.RequestContextHolder.init_request_context, client_context.RequestContextHolder.new_request_context],
+            stubs=["clock (harness shared with C18 request_timing)"], real_valued=True, bounds={"sub-requests of one logical request": "1..3, inside an enclosing request context"},
+            doc="the service time recorded for a sub-request of a composite operation is the span of its own wire requests, not of its siblings"),
     Harness("timings", timings, "symbolic",
             lambda tier: [{"requests": k, "throttled": t, "_w": k} for k in ((1, 2, 3) if tier == "quick" else (1, 2, 3, 4)) for t in (True, False)]
             + [{"requests": 2, "throttled": True, "complete_during_wait": True, "max_gap": 2.5, "_w": 3}]
-            + [{"requests": 2, "throttled": t, "nested": True, "_w": 2} for t in (True, False)],
+            + [{"requests": 2, "throttled": t, "nested": True, "_w": 2} for t in (True, False)]
+            + [{"requests": 2, "throttled": t, "ramp": True, "_w": 2} for t in (True, False)],
             reads=READS, stubs=STUBS, assumptions=["floats modelled as exact reals (model R)", "runners touch the request context (documented client contract)"],
             bounds={"requests per client": "<=3 quick / <=4 thorough", "clock increments and scheduled gaps": "unbounded reals >= 0", "outcome classes": 8},
             real_valued=True, doc="the three timings, throttling, one sample per request, error outcomes under continue"),
